@@ -701,3 +701,139 @@ theorem import_twice_sameResource (W : World) (base k : String) (frm to r : KVs)
   importEntries_twice frm to r (sameResource_refl W base k) hnd h
 
 end CV.Include
+
+namespace CV.Include
+open CV CV.Val
+
+variable {s : Val → Val → Bool} {S : String → Val → Val → Bool}
+
+/-! ## `include.go` has no panic of its own (after fixes 03de7c5 and 53f12a7) -/
+
+/-- the outcome is not a panic -/
+def NoPanic {α} (x : Out α) : Prop := ∀ site, x ≠ .panic site
+
+theorem noPanic_ok {α} (a : α) : NoPanic (Out.ok a) := fun _ h => by cases h
+theorem noPanic_err {α} (e : String) : NoPanic (Out.err e : Out α) := fun _ h => by cases h
+
+theorem noPanic_bind {α β} {x : Out α} {f : α → Out β} (hx : NoPanic x) (hf : ∀ a, NoPanic (f a)) :
+    NoPanic (x.bind f) := by
+  cases x with
+  | ok a => exact hf a
+  | err e => exact noPanic_err e
+  | panic site => exact absurd rfl (hx site)
+
+theorem strList_noPanic (v : Option Val) : NoPanic (strList v) := by
+  unfold strList
+  split
+  · exact noPanic_ok _
+  · exact noPanic_ok _
+  · exact noPanic_ok _
+  · split
+    · exact noPanic_ok _
+    · exact noPanic_err _
+  · exact noPanic_err _
+
+theorem cfgOf_noPanic (v : Val) : NoPanic (cfgOf v) := by
+  unfold cfgOf
+  split
+  · exact noPanic_ok _
+  · exact noPanic_ok _
+  · rename_i kvs
+    have hp := strList_noPanic (lookup "path" kvs)
+    split
+    · split
+      · exact noPanic_bind (strList_noPanic _) (fun _ => noPanic_ok _)
+      · exact noPanic_bind (strList_noPanic _) (fun _ => noPanic_ok _)
+      · exact noPanic_bind (strList_noPanic _) (fun _ => noPanic_ok _)
+      · exact noPanic_err _
+    · exact noPanic_err _
+    · rename_i site h; exact absurd h (hp site)
+  · exact noPanic_err _
+
+theorem cfgsOf_noPanic : ∀ l, NoPanic (cfgsOf l)
+  | [] => noPanic_ok _
+  | v :: r => by
+    simp only [cfgsOf]
+    exact noPanic_bind (cfgOf_noPanic v) (fun _ => noPanic_bind (cfgsOf_noPanic r) (fun _ => noPanic_ok _))
+
+theorem loadIncludeConfig_noPanic (v : Option Val) : NoPanic (loadIncludeConfig v) := by
+  unfold loadIncludeConfig
+  split
+  · exact noPanic_ok _
+  · exact noPanic_ok _
+  · exact cfgsOf_noPanic _
+  · exact noPanic_err _
+
+theorem importEntries_noPanic (frm to : KVs) : NoPanic (importEntries s frm to) := by
+  rcases importEntries_outcome (s := s) frm to with ⟨r, hr⟩ | hr
+  · rw [hr]; exact noPanic_ok _
+  · rw [hr]; exact noPanic_err _
+
+theorem importResource_noPanic (src tgt : KVs) (k : String) : NoPanic (importResource S src tgt k) := by
+  unfold importResource
+  split
+  · exact noPanic_ok _
+  · exact noPanic_ok _
+  · split
+    · exact noPanic_err _
+    · split
+      · exact noPanic_bind (importEntries_noPanic _ _) (fun _ => noPanic_ok _)
+      · exact noPanic_err _
+
+theorem importKinds_noPanic (src : KVs) : ∀ ks tgt, NoPanic (importKinds S src ks tgt)
+  | [], _ => noPanic_ok _
+  | k :: ks, tgt => by
+    simp only [importKinds]
+    exact noPanic_bind (importResource_noPanic src tgt k) (fun t => importKinds_noPanic src ks t)
+
+theorem plan_noPanic (W : World) (wd L : String) (chain : List String) (r : IncCfg) : NoPanic (plan W wd L chain r) := by
+  unfold plan
+  split
+  · exact noPanic_ok _
+  · simp only
+    split
+    · exact noPanic_err _
+    · exact noPanic_ok _
+
+theorem envFilesExplicit_noPanic (W : World) (wd : String) : ∀ ef, NoPanic (envFilesExplicit W wd ef)
+  | [] => noPanic_ok _
+  | f :: rest => by
+    simp only [envFilesExplicit]
+    split
+    · exact noPanic_bind (envFilesExplicit_noPanic W wd rest) (fun _ => noPanic_ok _)
+    · split
+      · exact noPanic_err _
+      · split
+        · exact noPanic_bind (envFilesExplicit_noPanic W wd rest) (fun _ => noPanic_ok _)
+        · exact noPanic_err _
+
+theorem envFiles_noPanic (W : World) (wd pd : String) (ef : List String) : NoPanic (envFiles W wd pd ef) := by
+  unfold envFiles
+  split
+  · exact noPanic_ok _
+  · exact envFilesExplicit_noPanic W wd _
+
+/-- **include_never_panics**: whatever the document, the file system and the chain are, `ApplyInclude` does not
+panic unless `GetEnvFromFile` or the sub-load does: malformed `include` sections, non-mapping sections on either
+side of the import, missing files and cycles are all errors -/
+theorem include_never_panics (W : World)
+    (henv : ∀ e fs, NoPanic (W.envFromFile e fs)) (hload : ∀ a b c d e, NoPanic (W.loadModel a b c d e))
+    (wd L : String) (env : Env) (chain : List String) (model : KVs) :
+    NoPanic (applyInclude W wd L env chain model) := by
+  have hone : ∀ m r, NoPanic (includeOne W wd L env chain m r) := by
+    intro m r
+    simp only [includeOne]
+    refine noPanic_bind (plan_noPanic _ _ _ _ _) (fun pl => ?_)
+    refine noPanic_bind ?_ (fun env' => ?_)
+    · simp only [includeEnv]
+      exact noPanic_bind (envFiles_noPanic _ _ _ _) (fun efs => noPanic_bind (henv _ _) (fun _ => noPanic_ok _))
+    · exact noPanic_bind (hload _ _ _ _ _) (fun im => importKinds_noPanic im _ _)
+  have hall : ∀ cfgs m, NoPanic (includeAll W wd L env chain cfgs m) := by
+    intro cfgs
+    induction cfgs with
+    | nil => intro m; exact noPanic_ok _
+    | cons r rs ih => intro m; simp only [includeAll]; exact noPanic_bind (hone m r) ih
+  simp only [applyInclude]
+  exact noPanic_bind (loadIncludeConfig_noPanic _) (fun cfgs => noPanic_bind (hall cfgs model) (fun _ => noPanic_ok _))
+
+end CV.Include
